@@ -96,3 +96,19 @@ Proof.
   unfold qt_scale. rewrite map_map. apply map_ext. intros row. rewrite map_map. apply map_ext. intros x.
   unfold pmul'. rewrite (peval_nmul _ _ (G8 th)). rewrite Ha. reflexivity.
 Qed.
+
+Lemma phase_candidates_unit_l key : forallb ph_unit (phase_candidates key) = true.
+Proof.
+  unfold phase_candidates. cbn [forallb]. rewrite export_phase_unit_l. vm_compute. reflexivity.
+Qed.
+
+Lemma export_equiv_sound_l key M N :
+  export_equiv HZ meqb key M N = true ->
+  forall th : list R, exists a : R,
+    map (map (peval (aenv HZ DD th))) M = map (map (fun x => cis a * peval (aenv HZ DD th) x)) N.
+Proof.
+  unfold export_equiv. intros H th. apply existsb_exists in H. destruct H as [ph [Hin H]].
+  pose proof (phase_candidates_unit_l key) as U. rewrite forallb_forall in U.
+  exact (export_obligation_sound_l M N ph H (U ph Hin) th).
+Qed.
+
